@@ -122,3 +122,10 @@ def run(ctx, rep):
                    'weather does not enter directly' if not hw else f'{k} depends on weather directly under policy None')
     rep.floor('policy-None worlds', n, 16)
     rep.sample({'Shurooq': show(c.values.get('Shurooq'), maxd=5)[:300]})
+    # shared mechanism (a necessary condition of this property too): the ephemeris is taken at the requested date
+    from . import shared, julian
+    shared.include(ctx, rep, lambda c_, r_: julian.check(c_, r_, 'R2.7'), {'R2.7'}, why='Julian Day of the requested date')
+    # shared mechanism: no wrap-induced jump of the interpolated right ascension / declination (R1.2)
+    from . import shared, modular, conv as _CV
+    shared.include(ctx, rep, lambda c_, r_: modular.check(c_, r_, _CV.get(c_)), {'R1.2'}, why='360->0 seam hygiene of the interpolation')
+
